@@ -26,6 +26,13 @@ variable {K : Type} [Field K] [LinearOrder K] [FloorRing K]
 
 namespace Basis
 
+/-- One entry of the list comprehension of `BSplineBasis.integrate`:
+`(knot[i+p]-knot[i])*1.0/p * np.sum(N1[i:]-N0[i:])`.  (`Lemmas/C16Model.lean`: this is
+`intF(t1) − intF(t0)` whenever the rows `N0`, `N1` hold the B-spline values.) -/
+def integrateEntry (knot : Array K) (p : ℕ) (N0 N1 : Array K) (i : ℕ) : K :=
+  (knot.getD (i + p) 0 - knot.getD i 0) / (p : K) *
+    (List.range' i (N0.size - i)).foldl (fun acc j => acc + (N1.getD j 0 - N0.getD j 0)) 0
+
 /-- `BSplineBasis.integrate(t0, t1)`.
 
 `raise NotImplemented('…')` in the source CALLS the constant `NotImplemented`, which is not
@@ -43,11 +50,8 @@ def integrate (b : Basis K) (tol t0 t1 : K) : PyM (Array K) :=
   | .ok ib =>
     let N0 := ib.evaluate tol t0' 0 true
     let N1 := ib.evaluate tol t1' 0 true
-    let m := N0.size
     -- N = [(knot[i+p]-knot[i])*1.0/p * np.sum(N1[i:]-N0[i:]) for i in range(N0.size)]
-    let N : Array K := Array.ofFn (n := m) (fun i =>
-      (knot.getD (i.val + p) 0 - knot.getD i.val 0) / (p : K) *
-        (List.range' i.val (m - i.val)).foldl (fun acc j => acc + (N1.getD j 0 - N0.getD j 0)) 0)
+    let N : Array K := Array.ofFn (n := N0.size) (fun i => integrateEntry knot p N0 N1 i.val)
     -- N = N[1:]
     let N := N.extract 1 N.size
     if b.periodic > -1 then
